@@ -9,6 +9,7 @@ package sctp
 import (
 	"fmt"
 	"os"
+	"runtime"
 	"strings"
 	"testing"
 	"time"
@@ -196,6 +197,9 @@ func vfRunTransfer(t *testing.T, spec *vfSpec, res *vfRes, o vfXferOpts) *vfXfer
 		writersOK := w.waitWriters(bound)
 		if !o.noDrainCheck {
 			out.drained = writersOK && w.waitDrained(bound-(sim.net.now()-healT)+time.Second)
+			if out.drained {
+				res.count("drained", 1)
+			}
 			if !out.drained {
 				a, b := w.buffered()
 				detail := ""
@@ -205,6 +209,20 @@ func vfRunTransfer(t *testing.T, spec *vfSpec, res *vfRes, o vfXferOpts) *vfXfer
 					}
 				}
 				sa, sb := sim.snap(0), sim.snap(1)
+				for side := 0; side < 2; side++ {
+					if a := sim.getAssoc(side); a != nil {
+						a.lock.RLock()
+						res.witness("side %d: t3running=%v t3(nRtos=%d state=%d pending=%d) tlrActive=%v tlrFirstRTT=%v burst=%d/%d willRtxFast=%v inFR=%v ackState=%d writePending=%v rackHead=%v advPeer=%d cumAck=%d nextTSN=%d",
+							side, a.t3RTX.isRunning(), a.t3RTX.nRtos, a.t3RTX.state, a.t3RTX.pending, a.tlrActive, a.tlrFirstRTT, a.tlrBurstFirstRTTUnits, a.tlrBurstLaterRTTUnits, a.willRetransmitFast, a.inFastRecovery, a.ackState, a.writePending, a.rackHead != nil, a.advancedPeerTSNAckPoint, a.cumulativeTSNAckPoint, a.myNextTSN)
+						for i := 0; i < a.inflightQueue.size() && i < 5; i++ {
+							c := a.inflightQueue.chunks.At(i)
+							res.witness("  inflight[%d]: tsn=%d sid=%d len=%d nSent=%d acked=%v abandoned=%v retransmit=%v miss=%d since=%v", i, c.tsn, c.streamIdentifier, len(c.userData), c.nSent, c.acked, c.abandoned(), c.retransmit, c.missIndicator, c.since.Sub(sim.net.t0))
+						}
+						a.lock.RUnlock()
+					}
+				}
+				buf := make([]byte, 1<<20)
+				res.witness("%s", string(buf[:runtime.Stack(buf, true)]))
 				res.violate("C02", "stall/after-heal", "%v after the link healed (bound %v): writers returned=%v, association buffered=%d stream buffered=%d;%s; A: inflight=%d pending=%d cwnd=%d rwnd=%d state=%d; B: inflight=%d pending=%d cwnd=%d rwnd=%d state=%d",
 					sim.net.now()-healT, bound, writersOK, a, b, detail, sa.InflightN, sa.PendingN, sa.CWND, sa.RWND, sa.State, sb.InflightN, sb.PendingN, sb.CWND, sb.RWND, sb.State)
 			}
@@ -235,6 +253,7 @@ func vfRunTransfer(t *testing.T, spec *vfSpec, res *vfRes, o vfXferOpts) *vfXfer
 		if o.afterMonitors != nil {
 			o.afterMonitors(sim, w, out.mon)
 		}
+		sim.vfDumpTrace()
 	})
 
 	return out
@@ -260,8 +279,14 @@ func vfFinalAccounting(sim *vfSim, w *vfWork, drained bool) {
 		credit := a.getMyReceiverWindowCredit()
 		max := a.maxReceiveBufferSize
 		var held int
+		detail := ""
 		for _, s := range a.streams {
 			held += s.getNumBytesInReassemblyQueue()
+			if s.getNumBytesInReassemblyQueue() > 0 {
+				s.lock.RLock()
+				detail += vfDescribeReassembly(s.reassemblyQueue)
+				s.lock.RUnlock()
+			}
 		}
 		a.lock.RUnlock()
 		unread := 0
@@ -271,7 +296,7 @@ func vfFinalAccounting(sim *vfSim, w *vfWork, drained bool) {
 			}
 		}
 		if credit != max && unread == 0 {
-			res.violate("C11", "final/credit", "side %d: receive credit %d != buffer %d after the application read everything (%d bytes still counted)", side, credit, max, held)
+			res.violate("C11", "final/credit", "side %d: receive credit %d != buffer %d after the application read everything (%d bytes still counted)%s", side, credit, max, held, detail)
 		}
 		res.count("c11_final_credit_checked", 1)
 	}
@@ -414,4 +439,43 @@ func vfEffMaxMsg(c *vfSideCfg, peer *vfSideCfg, nStreams int, il bool) uint32 {
 	}
 
 	return maxMsg
+}
+
+func vfDescribeReassembly(r *reassemblyQueue) string {
+	out := fmt.Sprintf(" {sid %d nBytes=%d nextSSN=%d nextMID=%d:", r.si, r.getNumBytes(), r.nextSSN, r.nextMID)
+	d := func(where string, c *chunkPayloadData) {
+		if len(out) < 1500 {
+			out += fmt.Sprintf(" %s[tsn=%d ssn=%d mid=%d fsn=%d U=%v B=%v E=%v len=%d]", where, c.tsn, c.streamSequenceNumber, c.messageIdentifier, c.fragmentSequenceNumber, c.unordered, c.beginningFragment, c.endingFragment, len(c.userData))
+		}
+	}
+	for _, set := range r.ordered {
+		for _, c := range set.chunks {
+			d("ordered", c)
+		}
+	}
+	for _, set := range r.unordered {
+		for _, c := range set.chunks {
+			d("unordered", c)
+		}
+	}
+	for _, c := range r.unorderedChunks {
+		d("unorderedChunks", c)
+	}
+	for _, set := range r.orderedMID {
+		for _, c := range set.chunks {
+			d("orderedMID", c)
+		}
+	}
+	for _, set := range r.unorderedMID {
+		for _, c := range set.chunks {
+			d("unorderedMID", c)
+		}
+	}
+	for _, set := range r.unorderedMIDMap {
+		for _, c := range set.chunks {
+			d("unorderedMIDMap", c)
+		}
+	}
+
+	return out + "}"
 }
